@@ -356,12 +356,21 @@ class FormulaManager(object):
         """
         # TODO could this be improved by storing only the relative Fraction (or int maybe) in the real_constants dict?
         # Note: bool values are equal to 0 / 1 but are not valid constants
-        if type(value) != bool and value in self.real_constants:
+        # (the same holds for the components of a pair)
+        if type(value) != bool and \
+           not (isinstance(value, tuple) and
+                not all(is_pysmt_integer(v) or is_python_integer(v)
+                        for v in value)) and \
+           value in self.real_constants:
             return self.real_constants[value]
 
         if is_pysmt_fraction(value):
             val = value
         elif isinstance(value, tuple):
+            if not all(is_pysmt_integer(v) or is_python_integer(v)
+                       for v in value):
+                raise PysmtTypeError("Invalid type in constant. The type was:" + \
+                                     str([type(v) for v in value]))
             val = Fraction(value[0], value[1])
         elif is_python_rational(value):
             val = pysmt_fraction_from_rational(value)
